@@ -70,7 +70,7 @@ class C17(Prop):
             "accepts an append. non-trivial = pairs differing inside a nested container, or with a '/'/'~' key on the path of a "
             "difference, or an array shortened by >= 2; distinct by pair hash")
     ASSUMPTIONS = ["numbers are generated well separated so that tolerance equality and exact equality coincide"]
-    REQUIRED_CLASSES = ["equal_pair", "nested_difference", "escaped_key_in_patch", "array_shortened>=2", "independent"]
+    REQUIRED_CLASSES = ["equal_pair", "nested_difference", "escaped_key_in_patch", "array_shortened>=2", "independent", "ownership_flags_variant"]
 
     def budget(self, tier):
         return {"workers": 14, "examples": 900 if tier == "quick" else 20000}
@@ -90,8 +90,14 @@ class C17(Prop):
             to = copy.deepcopy(frm)
             for e in case["edits"]:
                 to, _ = edit(to, e, rnd)
-        pf = printing.build_tree(lib, frm)
-        pt = printing.build_tree(lib, to)
+        arena = printing.Arena(lib)
+        if case["rseed"] % 3 == 0:
+            pf = printing.build_flagged(lib, frm, arena, rnd)
+            pt = printing.build_flagged(lib, to, arena, rnd)
+            stats.cls("ownership_flags_variant")
+        else:
+            pf = printing.build_tree(lib, frm)
+            pt = printing.build_tree(lib, to)
         patch = None
         dup = None
         try:
@@ -168,6 +174,7 @@ class C17(Prop):
             for p in (pf, pt, patch, dup):
                 if p:
                     lib.cJSON_Delete(p)
+            arena.close()
         if lib.ledger_live() != 0:
             raise Violation("blocks left allocated (%d)" % lib.ledger_live(), key="leak")
 
